@@ -191,10 +191,20 @@ def can_signal_blocks(draw, s: M.Schema, struct_name: str, cfg: CanCfg) -> List[
         if muxers and len(top_scalar) >= 2 and draw(st.integers(0, 2)) == 0:
             mx = draw(st.sampled_from(muxers))
             cap = min(16, 1 << mx.width)
+            muxed = []
             for fname, lf in top_scalar.items():
                 if fname != mx.field and draw(st.booleans()):
                     blocks.setdefault(fname, []).append(("mux_count", draw(st.integers(1, cap))))
                     blocks[fname].append(("mux_signal", mx.field))
+                    muxed.append(lf)
+            # chained multiplexing: a multiplexed unsigned field is itself the selector of another field
+            second = [lf for lf in muxed if isinstance(lf.type, M.U)]
+            free = [f for f, lf in top_scalar.items() if f != mx.field and not any(k == "mux_signal" for k, _ in blocks.get(f, []))]
+            if second and free and draw(st.booleans()):
+                sel = draw(st.sampled_from(second))
+                tgt = draw(st.sampled_from(free))
+                blocks.setdefault(tgt, []).append(("mux_count", draw(st.integers(1, min(16, 1 << sel.width)))))
+                blocks[tgt].append(("mux_signal", sel.field))
     for fname, fl in blocks.items():
         out.append(M.SignalBlock(fname, fl))
     return out
